@@ -32,7 +32,7 @@ if ! $GO build -tags verif -overlay "$scratch/overlay.json" -o "$scratch/check" 
   echo "mutant: build failed"; cat "$scratch/build.err"; exit 2
 fi
 cd /verif
-env VERIF_OUT="$scratch" ${MUTANT_ENV:-} "$scratch/check" "$id" --tier "$tier"
+env VERIF_OUT="$scratch" ${MUTANT_ENV:-} "$scratch/check" "$id" --tier "$tier" ${MUTANT_ARGS:-}
 code=$?
 echo "mutant exit code: $code"
 exit $code
